@@ -15,6 +15,8 @@ structure DState where
   states : List (String × CoinState)
   node : Node := ⟨⟨CoinState.empty, [], none⟩, [], [], [], 0⟩
   recv : List RState := []          -- per peer: MessageReceiver state
+  wallet : Wallet := Wallet.empty
+  book : Book := Book.empty
   cand : Option (CoinState × Summary × Nat × List CTx) := none
 
 def defaultParams : Params := {
@@ -283,6 +285,106 @@ def nodeStep (d : DState) (C : Crypto) (args : List String) : DState × String :
   | ["digest"] => (d, nodeDigest C n)
   | _ => (d, "bad-op")
 
+/-! ### wallet and peer book -/
+
+def sortStrings (l : List String) : List String := l.mergeSort (fun a b => a ≤ b)
+
+def refStr (r : OutRef) : String := s!"{toHex r.hash}:{r.index}"
+
+def walletDigest (w : Wallet) : String :=
+  let kp := sortStrings (w.keypairs.map fun (k, v) => s!"{short k}:{short v}")
+  let an := sortStrings (w.annotations.map fun (k, a) => s!"{short k}:{a}")
+  let sp := sortStrings (w.spent.map refStr)
+  s!"keys={String.intercalate "," kp} unused={String.intercalate "," (w.unused.map short)} " ++
+  s!"ann={String.intercalate "," an} spent={String.intercalate "," sp}"
+
+def walletStep (d : DState) (C : Crypto) (args : List String) : DState × String :=
+  let w := d.wallet
+  match args with
+  | ["new"] => ({ d with wallet := Wallet.empty }, "ok")
+  | ["addkey", pk, sk] => ({ d with wallet := w.addKey (hx pk) (hx sk) }, "ok")
+  | ["handout", ann, choice] =>
+    (match w.handOut ann choice.toNat! with
+      | some (w', pk) => ({ d with wallet := w' }, "ok " ++ toHex pk)
+      | none => (d, "err"))
+  | ["restore", pk] =>
+    (match w.restore (hx pk) with
+      | some w' => ({ d with wallet := w' }, "ok")
+      | none => (d, "err"))
+  | ["saveload"] =>
+    (match Wallet.load w.dump with
+      | some w' => ({ d with wallet := w' }, "ok")
+      | none => (d, "err"))
+  | ["balance", st] =>
+    let cs := d.getState st
+    (d, match cs.current with
+      | some h => (match balancesAt C cs h with
+        | .ok bal => toString (w.balance bal)
+        | .error _ => "err")
+      | none => "0")
+  | ["spend", st, amount, fee, recipient, change] =>
+    let cs := d.getState st
+    (match cs.current, headUtxo cs with
+      | some h, some u =>
+        (match balancesAt C cs h with
+          | .error _ => (d, "err balances")
+          | .ok bal =>
+            match w.planSpend u bal amount.toNat! fee.toNat! (hx recipient) (hx change) with
+            | .error (.other m) => (d, "err " ++ (if m.startsWith "Insufficient" then "insufficient" else "other"))
+            | .error e => (d, "err " ++ errKind e)
+            | .ok (chosen, unsigned) =>
+              match w.createSpend u bal amount.toNat! fee.toNat! (hx recipient) (hx change)
+                  (chosen.map fun _ => zeros 64) with
+              | .error e => (d, "err sign " ++ errKind e)
+              | .ok (w', _) =>
+                ({ d with wallet := w' },
+                  "ok refs=" ++ String.intercalate "," (chosen.map fun (r, _) => refStr r) ++
+                  " outs=" ++ String.intercalate "," (unsigned.outputs.map fun o => s!"{o.value}:{short o.pk}") ++
+                  " msg=" ++ toHex (encTx unsigned) ++
+                  " signers=" ++ String.intercalate "," (chosen.map fun (_, o) => toHex o.pk)))
+      | _, _ => (d, "err head"))
+  | ["digest"] => (d, walletDigest w)
+  | _ => (d, "bad-op")
+
+def keyStr (k : PeerKey) : String := s!"{k.host}:{k.port}:{if k.outgoing then "O" else "I"}"
+
+def optInt : Option Int → String
+  | some t => toString t
+  | none => "-"
+
+def bookDigest (b : Book) : String :=
+  let conn := sortStrings (b.connected.map fun (k, p) =>
+    s!"{keyStr k}:{p.banScore}:{optInt p.lastAttempt}:{if p.helloReceived then 1 else 0}")
+  let disc := sortStrings (b.disconnected.map fun (k, p) => s!"{keyStr k}:{p.banScore}:{optInt p.lastAttempt}")
+  let my := sortStrings (b.myAddresses.map fun (h, p) => s!"{h}:{p}")
+  -- attempts made in one manager step are canonically ordered by address (dict order is not observed)
+  let att := (b.attempts.reverse.mergeSort fun (k₁, t₁, _) (k₂, t₂, _) => t₁ < t₂ || (t₁ == t₂ && keyStr k₁ ≤ keyStr k₂)).map
+    fun (k, t, ban) => s!"{keyStr k}@{t}/{ban}"
+  s!"conn={String.intercalate "," conn} disc={String.intercalate "," disc} my={String.intercalate "," my} " ++
+  s!"att={String.intercalate "," att} insane={b.insane}"
+
+def parseAddr (s : String) : Option (String × Nat) :=
+  match s.splitOn "/" with
+  | [h, p] => p.toNat?.map fun n => (h, n)
+  | _ => none
+
+def bookStep (d : DState) (args : List String) : DState × String :=
+  let b := d.book
+  let P := d.params
+  match args with
+  | ["new"] => ({ d with book := Book.empty }, "ok")
+  | ["add", host, port] =>
+    ({ d with book := { b with disconnected := b.disconnected.set ⟨host, port.toNat!, true⟩ ⟨none, 0⟩ } }, "ok")
+  | ["step", now] => ({ d with book := Book.apply P b (.step now.toInt!) }, "ok")
+  | ["incoming", host, port] => ({ d with book := Book.apply P b (.incoming host port.toNat!) }, "ok")
+  | ["hello", host, port, outg, mine, myPort] =>
+    ({ d with book := Book.apply P b (.hello ⟨host, port.toNat!, outg == "1"⟩ (mine == "1") myPort.toNat!) }, "ok")
+  | "peers" :: addrs => ({ d with book := Book.apply P b (.peers (addrs.filterMap parseAddr)) }, "ok")
+  | ["close", host, port, outg] =>
+    ({ d with book := Book.apply P b (.close ⟨host, port.toNat!, outg == "1"⟩) }, "ok")
+  | ["digest"] => (d, bookDigest b)
+  | _ => (d, "bad-op")
+
 def step (d : DState) (line : String) : DState × String :=
   let C := d.crypto
   match (line.trimAscii.toString.splitOn " ").filter (· ≠ "") with
@@ -322,6 +424,8 @@ def step (d : DState) (line : String) : DState × String :=
       | some t => flipsCmd C d.params (d.getState name) (hx blk) t
       | none => "bad-op")
   | "node" :: args => nodeStep d C args
+  | "w" :: args => walletStep d C args
+  | "book" :: args => bookStep d args
   | ["p", name, v] =>
     (match v.toInt? with
       | some k => (match setParam d.params name k with
